@@ -94,7 +94,7 @@ theorem side_rn_new {old new z x y : Nat} (hon : old ≠ new) (hzo : z ≠ old) 
       (Edge.keyOf old z = Edge.keyOf x y ∨ Edge.keyOf new z = Edge.keyOf x y) := by
   simp only [Edge.keyOf_eq_iff]
   unfold rn
-  by_cases hx : x = old <;> by_cases hy : y = old <;> simp only [hx, hy, if_true, if_false, true_and, and_true] <;> constructor <;> intro hh <;> first | omega | simp
+  by_cases hx : x = old <;> by_cases hy : y = old <;> simp only [hx, hy, if_true, if_false, true_and, and_true] <;> constructor <;> intro hh <;> omega
 
 theorem side_rn_old {old new z x y : Nat} (hon : old ≠ new) :
     Edge.keyOf old z ≠ Edge.keyOf (rn old new x) (rn old new y) := by
